@@ -56,3 +56,25 @@ Theorem C12_hex_corner_table :
           (map Z.of_nat (seq 0 8)) = true.
 Proof. exact hex_corner_table_ok. Qed.
 Print Assumptions C12_hex_corner_table.
+
+(** 3D, for ALL sizes: what the hexahedral builder writes -- the table regenerated from grid.rs on every run -- is a
+    well-formed 3-map: null dart inert, images in range, beta0 / beta1 inverse, beta2 an involution without fixed
+    point that never leaves the cell (closed hexahedra), beta3 an involution without fixed point between
+    neighbouring cells and null exactly on the rim, and faces glued through beta3 mirror each other. *)
+From HC Require Import Build.Grid3.
+Theorem C12_hex_grid_wf : forall nx ny nz, 0 < nx -> 0 < ny -> 0 < nz ->
+  wfZ3 (24 * nx * ny * nz + 1) (table_beta3 nx ny nz).
+Proof. exact hex_grid_wf. Qed.
+Print Assumptions C12_hex_grid_wf.
+
+(** ... and it is the regular hexahedral mesh: the generated table is the closed-form specification (local face
+    cycles, neighbour cell and local dart of every beta3 image) for every size and every cell. *)
+Theorem C12_hex_table_is_spec : forall nx ny nz i d, 0 < nx -> 0 < ny -> 0 < nz ->
+  table_beta3 nx ny nz i d = gbeta3 hex_spec nx ny nz i d.
+Proof. exact hex_table_is_spec. Qed.
+Print Assumptions C12_hex_table_is_spec.
+Theorem C12_hex_faces_are_quads :
+  forallb (fun k => c3l1 hex_spec (c3l1 hex_spec (c3l1 hex_spec (c3l1 hex_spec k))) =? k) (ks3 hex_spec) = true /\
+  forallb (fun k => negb (c3l1 hex_spec (c3l1 hex_spec k) =? k)) (ks3 hex_spec) = true.
+Proof. exact hex_faces_are_quads. Qed.
+Print Assumptions C12_hex_faces_are_quads.
